@@ -804,6 +804,12 @@ package mcp
 // counted as in flight for exactly the time it is being served (so the idle timer is paused), and never mints an id
 // or creates a session; ids are minted only for requests that carry none.
 //@ func (*StreamableHTTPHandler).serveStatefulPOST [C11, C12]
+// "within the size limit ... the mandated status" (MaxRequestBodyBytes documents 413): when the body of a POST served
+// on an ephemeral connection cannot be read, the failure is classified - 413 exactly when it is the size limiter's
+// error, 400 otherwise - and nothing is connected (defect F25: the session-less stateful path answered 400).
+//@   track ephemeralConnectOpts as eph
+//@   track errors.As as tooLarge
+//@   ensures @an-unreadable-body-is-classified calls(eph) == 1 && callResult(eph, 1, 1) != nil ==> calls(tooLarge) == 1 && calls(reject) == 1 && (callResult(tooLarge, 1, 0) ==> callArg(reject, 1, 2) == 413) && (!callResult(tooLarge, 1, 0) ==> callArg(reject, 1, 2) == 400) && calls(connect) == 0
 //@   track baseMediaType as media
 //@   track streamableAccepts as accepts
 //@   track http.Error as reject
@@ -837,6 +843,12 @@ package mcp
 // minted, and the temporary session of a served POST is closed when the request ends. (That the session table is
 // not touched is part of the lock-discipline obligation of the table's monitor: serveStateless never takes h.mu.)
 //@ func (*StreamableHTTPHandler).serveStateless [C11, C12]
+// "within the size limit ... the mandated status" (MaxRequestBodyBytes documents 413): when the body of a POST served
+// on an ephemeral connection cannot be read, the failure is classified - 413 exactly when it is the size limiter's
+// error, 400 otherwise - and nothing is connected (defect F25: the session-less stateful path answered 400).
+//@   track ephemeralConnectOpts as eph
+//@   track errors.As as tooLarge
+//@   ensures @an-unreadable-body-is-classified calls(eph) == 1 && callResult(eph, 1, 1) != nil ==> calls(tooLarge) == 1 && calls(reject) == 1 && (callResult(tooLarge, 1, 0) ==> callArg(reject, 1, 2) == 413) && (!callResult(tooLarge, 1, 0) ==> callArg(reject, 1, 2) == 400) && calls(connect) == 0
 //@   track baseMediaType as media
 //@   track streamableAccepts as accepts
 //@   ensures @post-body-must-be-json disablecontenttypecheck != "1" && calls(media) == 1 && callResult(media, 1, 0) != "application/json" ==> calls(reject) == 1 && callArg(reject, 1, 2) == 415 && calls(serve) == 0 && calls(connect) == 0
